@@ -112,7 +112,7 @@ fn axes() -> Vec<(String, Vec<(String, Mutator)>)> {
     ax.push(("method".into(), ["GET", "HEAD", "PUT", "POST", "DELETE", "OPTIONS", "PATCH", "FOO", "get"].iter().map(|me| ((*me).to_owned(), Arc::new(move |r: &mut R| r.req.method = (*me).to_owned()) as Mutator)).collect()));
     // path
     let long_path = format!("/bkt/{}", "a".repeat(2048));
-    let paths: Vec<String> = ["/", "/bkt", "/bkt/", "/bkt/k", "/%", "/%zz", "/bkt/%e9", "/bkt/%E9%80", "//", "/..", "/bkt/../x", "/b", "/BKT/k", "/bkt/k%00", "/bkt//", "/-/k", "/127.0.0.1/k", "*", "/bkt/k%2", "/%2F%2F"].iter().map(|s| (*s).to_owned()).chain([long_path]).collect();
+    let paths: Vec<String> = ["/", "/bkt", "/bkt/", "/bkt/k", "/%", "/%zz", "/bkt/%e9", "/bkt/%E9%80", "//", "/..", "/bkt/../x", "/b", "/BKT/k", "/bkt/k%00", "/bkt//", "/-/k", "/127.0.0.1/k", "*", "/bkt/k%2", "/%2F%2F", "/custom-route", "/custom-route/fail", "/custom-route/%zz"].iter().map(|s| (*s).to_owned()).chain([long_path]).collect();
     ax.push(("path".into(), paths.into_iter().map(|p| (p.chars().take(20).collect::<String>(), Arc::new(move |r: &mut R| set_path(&mut r.req, &p)) as Mutator)).collect()));
     // query
     let long_q = format!("?a={}", "q".repeat(4096));
